@@ -459,6 +459,8 @@ struct Rep {
     swaps: Arc<Mutex<Vec<(usize, usize, usize)>>>,
     seed: u64,
     obs: Arc<Vec<Vec<Vec<f64>>>>,
+    /// every proposed exchange is accepted (equal Hamiltonians and betas in the real thing)
+    always: bool,
 }
 impl QmcStepper for Rep {
     fn timestep(&mut self, _beta: f64) -> &[bool] {
@@ -493,7 +495,7 @@ impl GraphWeights for Rep {
         if self.slot < h.slot {
             let step = *self.gcount.lock().unwrap();
             let mut r = SplitMix64::new(self.seed ^ ((self.slot as u64) << 32) ^ (step as u64).wrapping_mul(0x9E37));
-            if r.next() & 1 == 1 {
+            if self.always || r.next() & 1 == 1 {
                 f64::INFINITY
             } else {
                 0.0
@@ -540,12 +542,20 @@ fn obs_of(obs: &[Vec<Vec<f64>>], gid: usize, age: usize) -> Vec<f64> {
 fn mode_temper(a: &Args) {
     let mut g = SplitMix64::new(a.seed ^ 0x2077);
     let cases = if a.thorough { 400 } else { 60 };
-    for ci in 0..cases {
-        let nrep = g.range(1, 4) as usize;
-        let s = g.range(1, 6) as usize;
+    // followed by the boundary of the swap period: s in {T-1, T, T+1, 2T}, sampling period dividing T, >= 2 replicas,
+    // every exchange accepted (equal betas), both mapper entry points
+    let bcases = if a.thorough { 160 } else { 40 };
+    for ci in 0..cases + bcases {
+        let boundary = ci >= cases;
+        let nrep = if boundary { g.range(2, 4) as usize } else { g.range(1, 4) as usize };
         let f = g.range(1, 5) as usize;
         let l = *g.pick(&LENS_QUICK[..16]);
-        let t = l * f + g.below(f as u64) as usize;
+        let t = if boundary { l * f } else { l * f + g.below(f as u64) as usize };
+        let s = if boundary { [t - 1, t, t, t + 1, 2 * t][ci % 5].max(1) } else { g.range(1, 6) as usize };
+        let always = boundary;
+        if boundary {
+            stat(if s == t { "temper_boundary_s_eq_T" } else { "temper_boundary_other" }, 1);
+        }
         let nobs = g.range(1, 4) as usize;
         // per graph a table over ages; white noise so that columns are (almost surely) non-constant
         let mut obs: Vec<Vec<Vec<f64>>> = (0..nrep).map(|_| gen_table(&mut g, t.max(2), nobs, false)).collect();
@@ -579,13 +589,17 @@ fn mode_temper(a: &Args) {
         }
         let bond_entry = ci % 3 == 0;
         let obs = Arc::new(obs);
-        let swaps = Arc::new(Mutex::new(vec![]));
         let seed = g.next();
-        let mut tc: TemperingContainer<SplitMix64, Rep> = TemperingContainer::new(SplitMix64::new(seed));
-        for i in 0..nrep {
-            let r = Rep { slot: i, gid: i, age: 0, state: enc_age(i, 0), gcount: Mutex::new(0), swaps: swaps.clone(), seed, obs: obs.clone() };
-            tc.add_qmc_stepper(r, [0.5, 1.0, 2.0, 4.0][i % 4]).unwrap();
-        }
+        let build = || {
+            let swaps = Arc::new(Mutex::new(vec![]));
+            let mut tc: TemperingContainer<SplitMix64, Rep> = TemperingContainer::new(SplitMix64::new(seed));
+            for i in 0..nrep {
+                let r = Rep { slot: i, gid: i, age: 0, state: enc_age(i, 0), gcount: Mutex::new(0), swaps: swaps.clone(), seed, obs: obs.clone(), always };
+                tc.add_qmc_stepper(r, if always { 1.0 } else { [0.5, 1.0, 2.0, 4.0][i % 4] }).unwrap();
+            }
+            (tc, swaps)
+        };
+        let (mut tc, swaps) = build();
         let use_opt_none = f == 1 && g.coin();
         let res = catch(|| {
             let fo = if use_opt_none { None } else { Some(f) };
@@ -629,23 +643,37 @@ fn mode_temper(a: &Args) {
         match res {
             Err(p) => emit(false, &input, "panic", Some(Err(format!("panicked: {}", p)))),
             Ok(r) => {
-                // documented process one step at a time, from the recorded swaps
-                let mut arr: Vec<(usize, usize)> = (0..nrep).map(|i| (i, 0)).collect();
+                // independent reference: an identically built container driven in lock step with serial semantics
+                // (one `timestep` per replica, `tempering_step()` after every s-th step, then read the states)
+                let (mut tc2, _) = build();
                 let mut want: Vec<Vec<Vec<f64>>> = vec![vec![]; nrep];
                 for k in 1..=t {
-                    arr.iter_mut().for_each(|x| x.1 += 1);
+                    for (m, beta) in tc2.graph_mut().iter_mut() {
+                        m.timestep(*beta);
+                    }
                     if k % s == 0 {
-                        for sw in swaps.iter().filter(|x| x.0 == k / s) {
-                            arr.swap(sw.1, sw.2);
-                        }
+                        tc2.tempering_step();
                     }
                     if k % f == 0 {
                         for i in 0..nrep {
-                            want[i].push(obs_of(&obs, arr[i].0, arr[i].1));
+                            let m = &tc2.graph_ref()[i].0;
+                            want[i].push(obs_of(&obs, m.gid, m.age));
                         }
                     }
                 }
                 let mut oracle: Option<Result<(), String>> = Some(Ok(()));
+                let fin: Vec<(usize, usize)> = tc.graph_ref().iter().map(|(m, _)| (m.gid, m.age)).collect();
+                let ref_fin: Vec<(usize, usize)> = tc2.graph_ref().iter().map(|(m, _)| (m.gid, m.age)).collect();
+                let mut structural: Option<String> = None;
+                if fin != ref_fin {
+                    structural = Some(format!("replicas end as (graph, age) {:?} but the lock-step reference ends as {:?} (T = {}, s = {}, f = {})", fin, ref_fin, t, s, f));
+                }
+                if tc.get_total_swaps() != tc2.get_total_swaps() {
+                    structural = Some(format!("total_swaps {} but the lock-step reference counts {} (T = {}, s = {}, f = {})", tc.get_total_swaps(), tc2.get_total_swaps(), t, s, f));
+                }
+                if always && nrep >= 2 && tc2.get_total_swaps() as usize != (t / s) * (nrep - 1) {
+                    structural = Some(format!("reference: {} accepted exchanges, {} expected", tc2.get_total_swaps(), (t / s) * (nrep - 1)));
+                }
                 let mut out = vec![];
                 for i in 0..nrep {
                     out.push(show_out(&r[i]));
@@ -658,7 +686,11 @@ fn mode_temper(a: &Args) {
                         Some(Ok(())) => {}
                     }
                 }
-                emit(oracle.is_some(), &input, &out.join(" "), oracle);
+                let nt = oracle.is_some();
+                if let Some(m) = structural {
+                    oracle = Some(Err(m));
+                }
+                emit(nt, &input, &out.join(" "), oracle);
             }
         }
     }
